@@ -348,8 +348,20 @@ func runC07Wrap(t *testing.T, c explore.Case) (res explore.Result) {
 	return
 }
 
+// sync-level tier (schedule explorer), present only in overlay builds (build tag verife2)
+var (
+	c07SyncTier   func(t *testing.T, w *explore.Worker, idx *int)
+	c07SyncReplay func(t *testing.T, c explore.Case) explore.Result
+)
+
 func init() {
 	runners["C07"] = func(t *testing.T, c explore.Case) explore.Result {
+		if strings.HasPrefix(c.Unit, "sync;") {
+			if c07SyncReplay == nil {
+				return explore.Result{Viol: "HARNESS: sync tier not built"}
+			}
+			return c07SyncReplay(t, c)
+		}
 		if c.Unit == "wrap" {
 			return runC07Wrap(t, c)
 		}
@@ -365,7 +377,7 @@ func TestC07(t *testing.T) {
 		depth = 4
 	}
 	w.Bound("depth", depth)
-	w.SetRule("6 scenarios of 1-3 concurrently outstanding queries (same destination twice, different destinations, same IP with ports 2000/20000, ping+get+ping to one address, IPv4+IPv6); BFS over datagram sequences whose letters are built from the observed transaction ids: own reply, own error, unknown y, adjacent / extended / prefixed / truncated / empty t, right t from another port (decimal prefix of the real one) or another IP, another pending query's t; each reply carries a unique marker; reference = the pending query with exactly this (address, t); states deduplicated by per-query status; every sequence ends with the remaining queries timing out")
+	w.SetRule("6 scenarios of 1-3 concurrently outstanding queries (same destination twice, different destinations, same IP with ports 2000/20000, ping+get+ping to one address, IPv4+IPv6); BFS over datagram sequences whose letters are built from the observed transaction ids: own reply, own error, unknown y, adjacent / extended / prefixed / truncated / empty t, right t from another port (decimal prefix of the real one) or another IP, another pending query's t; each reply carries a unique marker; reference = the pending query with exactly this (address, t); states deduplicated by per-query status; every sequence ends with the remaining queries timing out; plus, at lock / socket-write granularity under the schedule explorer, one Query racing its reply, a reply with the right t from another port, the caller's cancellation and a following query to another address that nobody answers (no query may complete with a reply that was not delivered from its own address)")
 	idx := 0
 	if w.Mine(idx) {
 		w.BeginUnit(idx, "wrap")
@@ -390,5 +402,8 @@ func TestC07(t *testing.T) {
 			b.Explore()
 			w.Flush(false)
 		}
+	}
+	if c07SyncTier != nil {
+		c07SyncTier(t, w, &idx)
 	}
 }
